@@ -84,7 +84,17 @@ pub fn child_main(root: &Path) {
                     Err(_) => "err".to_string(),
                 }
             }
-            "open" | "openstats" | "openasync" | "openbad" => {
+            "cleanup" => match handles.get(&h) {
+                // the owner's orphan clean-up (both forms): whatever it removes, the directory stays owned
+                Some(hd) if hd.stats.is_some() => {
+                    let st = hd.stats.as_ref().unwrap();
+                    let r1 = st.delete_orphans();
+                    let r2 = st.quarantine_orphans(&root.with_file_name(format!("quarantine-{}", std::process::id())));
+                    if r1.is_ok() && r2.is_ok() { "ok".to_string() } else { "err".to_string() }
+                }
+                _ => "nohandle".to_string(),
+            },
+            "open" | "openstats" | "openasync" | "openbad" | "openalias" => {
                 *muts.lock().unwrap() = 0;
                 let conf = if cmd == "openasync" {
                     Config { sync_mode: cassadilia::SyncMode::Async, ..Default::default() }
@@ -95,7 +105,14 @@ pub fn child_main(root: &Path) {
                 } else {
                     Config::default()
                 };
-                let r: Result<(Cas<String>, Option<OrphanStats<String>>), LibError> = Cas::open_with_recover(root, conf);
+                // the same directory under another name: a symbolic link next to it (made by the parent), or a spelling with "."
+                let alias: PathBuf = if h % 2 == 1 {
+                    root.with_file_name("lockdb-alias")
+                } else {
+                    root.parent().unwrap().join(".").join(root.file_name().unwrap()).join(".")
+                };
+                let at: &Path = if cmd == "openalias" { &alias } else { root };
+                let r: Result<(Cas<String>, Option<OrphanStats<String>>), LibError> = Cas::open_with_recover(at, conf);
                 let m = *muts.lock().unwrap();
                 match r {
                     Ok((cas, stats)) => {
@@ -196,6 +213,9 @@ pub fn run_lock_scenario(sc: &Value, scratch: &Path, out: &mut Out, shim_so: Opt
     let _ = std::fs::remove_dir_all(&root);
     std::fs::create_dir_all(&root).unwrap();
     out.emit(&json!({"ev": "reset", "sid": sc["id"], "np": sc["np"], "nh": sc["nh"]}));
+    let alias = root.with_file_name("lockdb-alias");
+    let _ = std::fs::remove_file(&alias);
+    std::os::unix::fs::symlink(&root, &alias).unwrap();
     let mut procs: HashMap<u64, Proc> = HashMap::new();
     for a in sc["actions"].as_array().cloned().unwrap_or_default() {
         let act = a["a"].as_str().unwrap_or("");
@@ -268,4 +288,10 @@ pub fn run_lock_scenario(sc: &Value, scratch: &Path, out: &mut Out, shim_so: Opt
         let _ = pr.child.wait();
     }
     let _ = std::fs::remove_dir_all(&root);
+    let _ = std::fs::remove_file(&alias);
+    for e in std::fs::read_dir(scratch).into_iter().flatten().flatten() {
+        if e.file_name().to_string_lossy().starts_with("quarantine-") {
+            let _ = std::fs::remove_dir_all(e.path());
+        }
+    }
 }
